@@ -565,3 +565,66 @@ func UNFOLD_S1(h *rt.H) {
 	}
 	h.Assert("assigned-and-untouched", ok)
 }
+
+type preS struct{ V int }
+
+// UNFOLD_Prepopulated (C13): a target that already holds more elements than the
+// stream delivers (a reused target): after unfolding it holds exactly the stream's
+// value, whether the producer announces the length or not. Slices of structs
+// (reflection based slice unfolder) and of integers.
+func UNFOLD_Prepopulated(h *rt.H) {
+	known := h.Choose("known", 0, 1) == 1
+	n := h.Choose("n", 0, 2)
+	structs := h.Choose("structs", 0, 1) == 1
+	vals := make([]int8, n)
+	for i := range vals {
+		vals[i] = int8(h.U8("v"))
+	}
+	ts := []preS{{V: 91}, {V: 92}, {V: 93}}
+	ti := []int{91, 92, 93}
+	var target interface{} = &ti
+	if structs {
+		target = &ts
+	}
+	u, err := gotype.NewUnfolder(target)
+	h.Assert("unfolder-created", err == nil)
+	v := structform.EnsureExtVisitor(u)
+	l := -1
+	if known {
+		l = n
+	}
+	err = v.OnArrayStart(l, structform.AnyType)
+	for i := 0; i < n && err == nil; i++ {
+		if structs {
+			err = v.OnObjectStart(1, structform.AnyType)
+			if err == nil {
+				err = v.OnKey("v")
+			}
+			if err == nil {
+				err = v.OnInt8(vals[i])
+			}
+			if err == nil {
+				err = v.OnObjectFinished()
+			}
+		} else {
+			err = v.OnInt8(vals[i])
+		}
+	}
+	if err == nil {
+		err = v.OnArrayFinished()
+	}
+	h.Assert("no-error", err == nil)
+	ok := true
+	if structs {
+		ok = len(ts) == n
+		for i := 0; i < n && ok; i++ {
+			ok = rt.And(ok, ts[i].V == int(vals[i]))
+		}
+	} else {
+		ok = len(ti) == n
+		for i := 0; i < n && ok; i++ {
+			ok = rt.And(ok, ti[i] == int(vals[i]))
+		}
+	}
+	h.Assert("exactly-the-stream", ok)
+}
